@@ -78,6 +78,53 @@ def stop_while_running(check, i):
     return g, [{"kind": "exec-start", "src": "X", "nth": 1, "action": "open:x_started"}]
 
 
+def loop_other_output(check, j):
+    """A loop whose sub-workflow declares a further output; one item ends in it, so the loop did not succeed and the step
+    that needs the loop's success output must not run."""
+    rng = random.Random(derive_seed(check.seed, "c04-loop", j))
+    nsub = rng.choice([1, 2])
+    sub = gen.sub_program("sub.yaml", nsub, with_error_output=rng.random() < 0.5, other_output="skipped")
+    loop = Step("loop", "foreach", sub=sub, items=Expr(In("items")), parallelism=rng.choice([1, 2, 3]))
+    how = rng.choice(["wait_for", "input"])
+    if how == "wait_for":
+        z = gen.plugin_step("z", Expr(In("tag")), wait_for=Expr(Ref("loop", "outputs", "success")))
+    else:
+        z = gen.plugin_step("z", Expr(In("tag")), extra_input={"a": Expr(Ref("loop", "outputs", "success", "data"))})
+    steps = [loop, z]
+    rng.shuffle(steps)
+    outs = {"success": {"z": gen.tagref("z")}, "loop_failed": {"e": Expr(Ref("loop", "failed", "error"))}}
+    n = rng.choice([1, 2, 4])
+    items = [{"tag": "i%d" % k} for k in range(n)]
+    bad = rng.randrange(n)
+    scripts = gen.make_scripts(steps, {})
+    scripts.setdefault("sub_w%d" % (nsub - 1), {})["exec_by_tag"] = None
+    prog = Program(steps, outs, gen.BASE_INPUT)
+    # the last sub step of item `bad` ends in `alt`, which feeds the sub-workflow's other output
+    last_src = "sub_w%d" % (nsub - 1)
+    tag = "i%d" % bad
+    for k in range(nsub - 1):
+        tag = "sub_w%d(%s)" % (k, tag)
+    scripts[last_src]["exec_by_tag"] = {tag: {"outcome": "alt"}}
+    return {"program": prog, "scripts": scripts, "input": {"tag": "T1", "items": items}, "shape": "loop-item-ends-in-other-output/%s/n=%d" % (how, n), "outcome": {"loop": "item %d other output" % bad}}
+
+
+def chained_enablement(check, j):
+    """A step enabled by the enabling result of another step; the other step is disabled, so the condition is false."""
+    rng = random.Random(derive_seed(check.seed, "c04-chain", j))
+    flag = rng.random() < 0.3
+    gate = gen.plugin_step("gate", Expr(In("tag")), enabled=Expr(In("flag")))
+    follower = gen.plugin_step("follower", Expr(In("tag")), enabled=Expr(Ref("gate", "enabling", "resolved", "enabled")))
+    steps = [gate, follower]
+    if rng.random() < 0.5:
+        steps.append(gen.plugin_step("third", gen.tagref("follower")))
+    rng.shuffle(steps)
+    outs = {"ran": {"f": gen.tagref(steps[-1].name if steps[-1].name == "third" else "follower")},
+            "skipped": {"m": Expr(Ref("follower", "disabled", "output", "message"))}}
+    prog = Program(steps, outs, gen.BASE_INPUT)
+    return {"program": prog, "scripts": gen.make_scripts(steps, {}), "input": {"tag": "T1", "flag": flag}, "shape": "chained-enablement/gate-%s" % ("enabled" if flag else "disabled"),
+            "outcome": {} if flag else {"gate": "disabled"}}
+
+
 def run(check):
     check.rule = ("a failing (error/alt/crash/drop/deploy failure) or disabled step placed at every position of 6 shapes (enumerated), the two-hop "
                   "stop-before-start construction, plus generated programs; delays between failure notification and dependants via random plans; "
@@ -98,6 +145,9 @@ def run(check):
                     g["shape"] = "two_hop_stop/targeted"
                     sites = [{"point": pt, "hit": h + 1, "ms": d} for h, d in enumerate((d1, d2, d3)) if d]
                     targeted.append((g, {"sites": sites, "record": True} if sites else None))
+    for j in range(check.pick(24, 200)):
+        gs.append(loop_other_output(check, j))
+        gs.append(chained_enablement(check, j))
     for i in range(check.pick(150, 2500)):
         g = runfam.gen_terminating(check.seed, "c04-%d" % i, p_fail=0.4, outcomes=FAILS)
         if g is not None:
